@@ -44,8 +44,12 @@ theorem docstart_correct (docstr : Str) (src : List Str) (a b : Nat) (la lb trip
     (hab : a ≤ b) (hla : src[a]? = some la) (hlb : src[b]? = some lb)
     (hn : countChar '\n' docstr = b - a) (ht : trip ∈ trips)
     (hend : endOk trip lb = true) (hstart : startOk trip la = true) :
-    docLines src ⟨docstr, b + 1⟩ = .ok ((a : Int) + 1, b + 1) := by
-  unfold docLines findDocStart
+    docLines src ⟨docstr, b + 1, a + 1⟩ = .ok ((a : Int) + 1, b + 1) := by
+  unfold docLines
+  cases Generated.docstartUsesNodeLineno
+  case true => simp
+  simp only [Bool.false_eq_true, if_false]
+  unfold findDocStart
   simp only [Nat.add_sub_cancel, hlb]
   rw [tripStep_at docstr src a b la lb _ hab hla hn, tripStep_at docstr src a b la lb _ hab hla hn]
   simp only [trips, List.mem_cons, List.not_mem_nil, or_false] at ht
@@ -58,14 +62,18 @@ theorem docstart_correct (docstr : Str) (src : List Str) (a b : Nat) (la lb trip
 /-- a string literal whose last line does not end in a triple quote is taken to be on one line -/
 theorem docstart_oneline (docstr : Str) (src : List Str) (b : Nat) (lb : Str) (hlb : src[b]? = some lb)
     (h1 : endOk tripS lb = false) (h2 : endOk tripD lb = false) :
-    docLines src ⟨docstr, b + 1⟩ = .ok ((b : Int) + 1, b + 1) := by
-  unfold docLines findDocStart
+    docLines src ⟨docstr, b + 1, b + 1⟩ = .ok ((b : Int) + 1, b + 1) := by
+  unfold docLines
+  cases Generated.docstartUsesNodeLineno
+  case true => simp
+  simp only [Bool.false_eq_true, if_false]
+  unfold findDocStart
   simp [hlb, tripStep, h1, h2]
 
 /-- non-vacuity: `def f():` / `    R"""Summary.` / `` / `    Example:` / `    """  # end` -/
 example : (docLines ["def f():".toList, "    R\"\"\"Summary.".toList, [], "    Example:".toList,
                     "    \"\"\"  # end".toList]
-    ⟨"Summary.\n\n    Example:\n    ".toList, 5⟩).toOption = some (2, 5) := by decide +kernel
+    ⟨"Summary.\n\n    Example:\n    ".toList, 5, 2⟩).toOption = some (2, 5) := by decide +kernel
 example : endOk "\"\"\"".toList "    \"\"\"  # end".toList = true := by decide +kernel
 example : startOk "\"\"\"".toList "    R\"\"\"Summary.".toList = true := by decide +kernel
 example : startOk "'''".toList "  u'''x".toList = true := by decide +kernel
